@@ -233,14 +233,17 @@ func topologyUnderTraffic(c *Ctx, rep int) {
 		waitFor(func() bool { return len(bed.Cluster.EstablishedControlConns()) >= 1 }, 5*time.Second)
 		time.Sleep(20 * time.Millisecond)
 	}
-	step(2, false)
-	ctlLoss()
-	step(4, true)
-	step(3, false)
-	ctlLoss()
-	step(2, true)
-	step(3, true)
-	ctlLoss()
+	for cycle := 0; cycle < 3; cycle++ { // three times: the racing accesses are a matter of which plans are in flight
+		step(2, false)
+		ctlLoss()
+		step(4, true)
+		step(3, false)
+		ctlLoss()
+		step(2, true)
+		step(3, true)
+		ctlLoss()
+		step(4, false)
+	}
 	step(2, false)
 	close(stop)
 	wg.Wait()
